@@ -268,7 +268,11 @@ func TestC07(t *testing.T) {
 					}
 				}
 				size := rapid.Int64Range(1, 3000).Draw(rt, "size")
-				fail(w.post(o, ref.Merkle, size, rapid.Int64Range(1, 3).Draw(rt, "maxProofs"), 0, nil))
+				exp := int64(0) // the re-post may be of the other payment kind than the original
+				if rapid.Bool().Draw(rt, "repostPayOnce") {
+					exp = w.f.Height() + rapid.SampledFrom([]int64{20_000, 100_000}).Draw(rt, "expiresIn")
+				}
+				fail(w.post(o, ref.Merkle, size, rapid.Int64Range(1, 3).Draw(rt, "maxProofs"), exp, nil))
 			},
 			"delete": func(rt *rapid.T) {
 				if len(w.posted) == 0 {
